@@ -117,6 +117,18 @@ def run_harness(h: dict, scale: float = 1.0) -> Result:
     fn = getattr(mod, fname)
     timeout = h.get("timeout", 60) * scale
     name = f"{modname.split('.')[-1]}.{fname}"
+    if h.get("kind") == "sweep":
+        # exhaustive structural enumeration without a symbolic variable: run natively (stated as such in the evidence)
+        t0 = time.time()
+        try:
+            val = fn(True)
+        except Exception as e:
+            val = ("raised", f"{type(e).__name__}: {e}")
+        dt = time.time() - t0
+        extra = {"bounds": h.get("bounds", ""), "functions": h.get("functions", []), "crosshair_s": round(dt, 1), "twin_s": 0.0, "kind": "exhaustive sweep, no solver"}
+        if val == 1:
+            return Result(name, HELD, "", "exhaustive structural sweep passed (no symbolic variable)", None, 0.0, 0, extra)
+        return Result(name, VIOLATION, f"{name}:sweep", f"structural sweep failed: {val}", {"engine": "K", "module": modname, "fn": fname, "args": "True"}, 0.0, 0, extra)
     ob = _gen_module(modname, fname, fn, "ob")
     tw = _gen_module(modname, fname, fn, "tw")
     t0 = time.time()
